@@ -167,7 +167,7 @@ func c09Sched(nChecks int) func(c *sim.Case) {
 		c.Logf("schedule: %s", strings.Join(s.trace, " "))
 		// the logout answer
 		lr := logout.resp
-		if lr.Panic != nil || !lr.IsRedirect() || lr.Location() != w.ExpectLogoutURI {
+		if lr.Panic != nil || !lr.IsRedirect() || !atEndSessionURI(lr.Location(), w.ExpectLogoutURI) {
 			c.Violation("logout-answer", "logout answered %v, want a redirect to %s", lr, w.ExpectLogoutURI)
 		}
 		expiredCookie := false
@@ -285,7 +285,7 @@ func (m *c09Mon) after(h *H, s *step) {
 			}
 		case s.R.Panic != nil || s.R.Err != nil:
 		default:
-			if !s.R.IsRedirect() || s.R.Location() != w.ExpectLogoutURI {
+			if !s.R.IsRedirect() || !atEndSessionURI(s.R.Location(), w.ExpectLogoutURI) {
 				c.Violation("logout-answer", "step #%d: logout answered %v (Location %q), want a redirect to the configured-or-discovered end-session URI %q", s.N, s.R, s.R.Location(), w.ExpectLogoutURI)
 			}
 			expired := false
